@@ -82,3 +82,14 @@ CHECKS['C03'] = dict(level='translation_validation',
         'Trusted: clang lowering of intrinsics to generic IR and the ~40 lane-wise transfer functions in laneflow/x86.py.',
    technique='cross-build differential of instantiated LLVM IR (pure vs intrinsic): term identity, polynomial normal forms, decision tables over order relations, who-may-use rule for rcp/rsqrt')
 NOT_APPLICABLE.pop('C03', None)
+
+CHECKS['C15'] = dict(level='translation_validation',
+   text='The default-configuration kernels of the C01/C02/C10/C12 corpora (quick: ~700, thorough: ~4900 one-call kernels) are instantiated again under 19 single-macro configurations '
+        '(GLM_FORCE_CXX98/03/11/14/17/20, INLINE, EXPLICIT_CTOR, CTOR_INIT, SIZE_T_LENGTH, XYZW_ONLY, SWIZZLE, UNRESTRICTED_GENTYPE, QUAT_DATA_WXYZ, COMPILER/PLATFORM/ARCH_UNKNOWN, PURE, '
+        'SILENT_WARNINGS) and combinations; every output lane must carry the same term as the default build (=> bit-identical for all inputs), or the same integer polynomial / selection; '
+        'the float-class and ordering domains turn fallback-vs-std divergences into witnesses; every kernel must instantiate under every configuration.',
+   note='programs = (kernel, configuration) pairs. Not decided: equality of different numeric fallback algorithms beyond what the domains can show (exp2/log2/asinh/acosh/atanh/trunc fallbacks '
+        'are UNDECIDED), dependence on the compiler optimisation level, aligned types without intrinsics (not constructible here), quaternion kernels under QUAT_DATA_WXYZ (C04). '
+        'Two known findings (round / roundEven fallbacks under CXX98/CXX03) are listed in known_findings.jsonl.',
+   technique='cross-configuration differential of instantiated LLVM IR: term identity, integer polynomial identity, ordering / float-class abstract evaluation')
+NOT_APPLICABLE.pop('C15', None)
